@@ -62,7 +62,11 @@ func main() {
 	}
 	eng := &Engine{repo: *repo, extraImports: map[string][][2]string{}, noPrune: os.Getenv("GOVC_NOPRUNE") != ""}
 	if err := eng.Load(); err != nil {
-		fmt.Fprintf(os.Stderr, "govc: load failed:\n%v\n", err)
+		msg := err.Error()
+		if lines := strings.Split(msg, "\n"); len(lines) > 12 {
+			msg = strings.Join(lines[:12], "\n") + fmt.Sprintf("\n... (%d more lines)", len(lines)-12)
+		}
+		fmt.Fprintf(os.Stderr, "govc: load failed:\n%v\n", msg)
 		os.Exit(2)
 	}
 	timeout := 10
